@@ -132,6 +132,7 @@ static std::vector<std::string> hist_gen(const GenArgs &ga) {
   bool jit_impossible = false;
   bool rawalloc = false;
   int nsubjects = 0;
+  bool sweep_member = false;
   if (P == "C06") {
     oracles = "res,fd,backup";
     static const char *codes[] = {"-", "-", "-", "emulate", "backup", "debug", "backup,emulate", "debug,backup"};
@@ -192,7 +193,12 @@ static std::vector<std::string> hist_gen(const GenArgs &ga) {
     maxlen = sw.chance(1, 2) ? 30 : 12;
     nsubjects = 2 + (int)sw.below(3);
     mix = {{"new", 12}, {"compile", 22}, {"take", 6}, {"run", 8}, {"runc", 4}, {"freep", 8}, {"freec", 6},
-           {"reset", 4}, {"debug", 6}, {"subject", 22}, {"rawalloc", faults ? 12 : 4}, {"policy", faults ? 5 : 0}};
+           {"reset", 4}, {"debug", 6}, {"subject", 22}, {"rawalloc", faults ? 12 : 4}, {"policy", faults ? 5 : 0},
+           {"regset", 1}};
+    // an eighth of the plans are opcode-sweep members: every built-in opcode, compiled for one backend (also the
+    // ones this machine cannot execute, and flag sets other than this machine's), twice, around a short history
+    sweep_member = sw.chance(1, 8);
+    if (sweep_member) { nops = 6 + (int)sw.below(12); nsubjects = 1; }
   }
   if (orc_code.find("debug") != std::string::npos) {
     // frees are documented no-ops in debug mode: no reuse/growth statements apply
@@ -227,6 +233,13 @@ static std::vector<std::string> hist_gen(const GenArgs &ga) {
   pl.push_back(strf("cfg poison=%d sink=%d cycles=%d oracles=%s refchild=%d", poison, sink, cycles, oracles.c_str(),
                     nsubjects > 0));
 
+  if (sweep_member) {
+    static const struct { const char *t; unsigned long fset; } sweeps[] = {
+        {"sse", 0}, {"avx", 0}, {"mmx", 0}, {"neon", 0}, {"neon", 0x8 /* ORC_TARGET_NEON_64BIT */}, {"neon", 0x8},
+        {"mips", 0}, {"altivec", 0}, {"c", 0}, {"c64x-c", 0}, {"sse", 0}, {"avx", 0}};
+    auto &sp = sweeps[sw.below(12)];
+    pl.push_back(strf("sweep target=%s fset=%#lx fmask=0xffffffff order=%llu", sp.t, sp.fset, (unsigned long long)(sw.next() >> 24)));
+  }
   // subjects (C17)
   bool float_watch = false;
   static const char *native_t[] = {"avx", "sse", "mmx", "default"};
@@ -245,7 +258,8 @@ static std::vector<std::string> hist_gen(const GenArgs &ga) {
       // drop a random subset of optional CPU feature bits (bits 1.. of the flag word), keep base + 64bit/frame bits
       fmask = ~((unsigned long)(sw.below(32) << 1)) & 0xffffffffUL;
     }
-    pl.push_back(strf("subject s=%d spec=%s target=%s fmask=0x%lx", s, spec.c_str(), tgt.c_str(), fmask));
+    unsigned long fset = (tgt == "neon" && sw.chance(1, 2)) ? 0x8 : 0;   // 64-bit NEON code
+    pl.push_back(strf("subject s=%d spec=%s target=%s fmask=0x%lx fset=%#lx", s, spec.c_str(), tgt.c_str(), fmask, fset));
   }
 
   // init, possibly under faults
@@ -316,8 +330,10 @@ static std::vector<std::string> hist_gen(const GenArgs &ga) {
       static const char *t06[] = {"default", "default", "default", "avx", "sse", "mmx", "null"};
       static const char *t09[] = {"default", "default", "avx", "sse", "sse", "mmx"};
       static const char *t16[] = {"default", "default", "avx", "sse", "mmx", "c", "null", "neon"};
-      const char *t = P == "C06" ? t06[pr.below(7)] : P == "C16" ? t16[pr.below(8)] : t09[pr.below(6)];
+      static const char *t17[] = {"default", "default", "avx", "sse", "sse", "mmx", "neon", "neon", "mips", "altivec", "c", "default"};
+      const char *t = P == "C06" ? t06[pr.below(7)] : P == "C16" ? t16[pr.below(8)] : P == "C17" ? t17[pr.below(12)] : t09[pr.below(6)];
       l += strf(" p=%d target=%s fmask=0xffffffff", (int)pr.below(1000), t);
+      if (P == "C17" && !strcmp(t, "neon") && pr.chance(1, 2)) l += " fset=0x8";
       if (faults && fr.chance(1, 3)) {
         int nf = 1 + (int)fr.below(2);
         for (int k = 0; k < nf; k++) l += " " + gen_fault(fr, 5);
@@ -363,6 +379,7 @@ static std::vector<std::string> hist_gen(const GenArgs &ga) {
       l += strf(" s=%d ds=%llu", s, (unsigned long long)(dr.next() >> 20));
     }
     pl.push_back(l);
+    if (sweep_member && i == 1) pl.push_back("op sweep");
     if (float_watch && i == nops / 2) {
       // an ordinary float kernel runs natively in the middle of the history
       pl.push_back("op new spec=fixed:addf backup=0");
@@ -370,6 +387,7 @@ static std::vector<std::string> hist_gen(const GenArgs &ga) {
       pl.push_back(strf("op run p=999999 mode=exec n=40 ds=%llu", (unsigned long long)(dr.next() >> 20)));
     }
   }
+  if (sweep_member) pl.push_back("op sweep");
   if (P == "C17") {
     // every subject is compiled at least twice more at the end, after the whole history
     for (int s = 0; s < nsubjects; s++)
@@ -425,7 +443,7 @@ struct CodeObj {
 
 struct SubjectRef {
   std::string spec, target;
-  unsigned long fmask = 0xffffffffUL;
+  unsigned long fmask = 0xffffffffUL, fset = 0;
   bool usable = false;
   int result = 0, code_size = 0;
   uint64_t code_hash = 0, asm_hash = 0, out_hash = 0;
@@ -433,8 +451,117 @@ struct SubjectRef {
   int compiles = 0;
 };
 
+// ---- opcode sweep (C17): every built-in opcode as a one-instruction program, in three operand forms, compiled
+// for one backend in a seeded order; the zero-history reference process compiles them in the opposite order, so
+// for every ordered pair (A, B) one of the two has compiled A before B and the other has not.
+struct SweepRec { int res = 0, size = 0; uint64_t ch = 0, ah = 0; };
+struct SweepCfg {
+  bool on = false;
+  std::string target;
+  unsigned long fset = 0, fmask = 0xffffffffUL;
+  uint64_t order = 0;
+  std::vector<SweepRec> ref;   // indexed by item number
+  bool have_ref = false;
+  int passes = 0;
+};
+
+static OrcProgram *sweep_program(const OrcStaticOpcode *op, int variant) {
+  // the three forms the pinned suite itself builds (orc-test: plain, const, param)
+  int args[5] = {-1, -1, -1, -1, -1};
+  int n = 0;
+  if (variant == 2 && op->src_size[1] == 0) return nullptr;
+  OrcProgram *p = orc_program_new();
+  if (op->flags & ORC_STATIC_OPCODE_ACCUMULATOR) args[n++] = orc_program_add_accumulator(p, op->dest_size[0], "d1");
+  else args[n++] = orc_program_add_destination(p, op->dest_size[0], "d1");
+  if (op->dest_size[1]) args[n++] = orc_program_add_destination(p, op->dest_size[1], "d2");
+  if (variant == 0) {
+    if (op->flags & ORC_STATIC_OPCODE_SCALAR) {
+      if (op->src_size[1] == 0) args[n++] = orc_program_add_constant(p, op->src_size[0], 1, "c1");
+      else {
+        args[n++] = orc_program_add_source(p, op->src_size[0], "s1");
+        args[n++] = orc_program_add_constant(p, op->src_size[1], 1, "c1");
+        if (op->src_size[2]) args[n++] = orc_program_add_constant(p, op->src_size[1], 1, "c2");
+      }
+    } else {
+      args[n++] = orc_program_add_source(p, op->src_size[0], "s1");
+      if (op->src_size[1]) args[n++] = orc_program_add_source(p, op->src_size[1], "s2");
+    }
+  } else if (variant == 1) {
+    if (op->src_size[1] == 0) args[n++] = orc_program_add_constant(p, op->src_size[0], 3, "c1");
+    else {
+      args[n++] = orc_program_add_source(p, op->src_size[0], "s1");
+      args[n++] = orc_program_add_constant(p, op->src_size[1], 3, "c1");
+      if (op->src_size[2]) args[n++] = orc_program_add_constant(p, op->src_size[2], 1, "c2");
+    }
+  } else {
+    args[n++] = orc_program_add_source(p, op->src_size[0], "s1");
+    args[n++] = orc_program_add_parameter(p, op->src_size[1], "p1");
+    if (op->src_size[2]) args[n++] = orc_program_add_parameter(p, op->src_size[2], "p2");
+  }
+  orc_program_set_name(p, strf("sweep%d_%s", variant, op->name).c_str());
+  orc_program_append_2(p, op->name, 0, args[0], args[1], args[2], args[3]);
+  return p;
+}
+
+struct SweepItem { int opcode, variant; };
+static std::vector<SweepItem> sweep_items(const std::string &target) {
+  std::vector<SweepItem> v;
+  OrcOpcodeSet *set = orc_opcode_set_get("sys");
+  if (!set) return v;
+  for (int i = 0; i < set->n_opcodes; i++) {
+    const OrcStaticOpcode *op = set->opcodes + i;
+    bool has8 = false;
+    for (int k = 0; k < 2; k++) if (op->dest_size[k] == 8) has8 = true;
+    for (int k = 0; k < 4; k++) if (op->src_size[k] == 8) has8 = true;
+    if (has8 && target == "mmx") continue;   // 64-bit programs on mmx never terminate on the pinned tree (C05's subject)
+    for (int var = 0; var < 3; var++) {
+      // (an upsampling load from a constant is no program anyone writes; the NEON rule aborts on it)
+      if (var == 1 && !strncmp(op->name, "loadup", 6)) continue;
+      v.push_back({i, var});
+    }
+  }
+  return v;
+}
+static std::vector<int> sweep_order(size_t n, uint64_t seed, bool reversed) {
+  std::vector<int> o(n);
+  for (size_t i = 0; i < n; i++) o[i] = (int)i;
+  Rng r(mix2(seed, 0x5eed0));
+  for (size_t i = n; i > 1; i--) std::swap(o[i - 1], o[r.below(i)]);
+  if (reversed) std::reverse(o.begin(), o.end());
+  return o;
+}
+// compiles every item in the given order; `refused` (optional) marks items whose own compile met a refusal of
+// code memory.  Returns the records indexed by item number.
+static std::vector<SweepRec> sweep_compile(const SweepCfg &sc, bool reversed, std::vector<char> *refused) {
+  std::vector<SweepItem> items = sweep_items(sc.target);
+  std::vector<SweepRec> out(items.size());
+  if (refused) refused->assign(items.size(), 0);
+  OrcTarget *t = orc_target_get_by_name(sc.target.c_str());
+  OrcOpcodeSet *set = orc_opcode_set_get("sys");
+  if (!t || !set) return out;
+  unsigned flags = (orc_target_get_default_flags(t) & (unsigned)sc.fmask) | (unsigned)sc.fset;
+  for (int idx : sweep_order(items.size(), sc.order, reversed)) {
+    OrcProgram *p = sweep_program(set->opcodes + items[idx].opcode, items[idx].variant);
+    if (!p) continue;
+    fs::begin_op({});
+    int res = orc_program_compile_full(p, t, flags);
+    fs::OpStats os = fs::end_op();
+    if (refused && (os.policy_failures > 0 || os.fired > 0)) (*refused)[idx] = 1;
+    OrcCode *code = p->orccode;
+    SweepRec &r = out[idx];
+    r.res = res;
+    r.size = code && code->chunk ? code->code_size : -1;
+    r.ch = code && code->chunk ? fnv(code->code, code->code_size) : 0;
+    const char *a = orc_program_get_asm_code(p);
+    r.ah = a ? fnv(a, strlen(a)) : 0;
+    orc_program_free(p);
+  }
+  return out;
+}
+
 struct State {
   Child *c;
+  SweepCfg sweep;
   std::vector<Prog> progs;
   std::vector<CodeObj> codes;
   std::vector<SubjectRef> subjects;
@@ -716,7 +843,7 @@ static void subject_reference(State &st, SubjectRef &s, int idx) {
     std::string out;
     if (!t && s.target != "null") out = "unusable no-target\n";
     else {
-      unsigned flags = t ? (orc_target_get_default_flags(t) & s.fmask) : 0;
+      unsigned flags = t ? ((orc_target_get_default_flags(t) & s.fmask) | s.fset) : 0;
       int res = orc_program_compile_full(p, t, flags);
       OrcCode *code = p->orccode;
       uint64_t ch = code && code->chunk ? fnv(code->code, code->code_size) : 0;
@@ -749,6 +876,59 @@ static void subject_reference(State &st, SubjectRef &s, int idx) {
   st.c->event("subject %d ref usable=%d result=%d size=%d code=%016llx asm=%016llx", idx, s.usable, res, cs, ch, ah);
 }
 
+// zero-history reference for the sweep: a grandchild forked before orc_init compiles the items in the opposite order
+static void sweep_reference(State &st) {
+  int pfd[2];
+  if (pipe(pfd) != 0) return;
+  pid_t pid = fork();
+  if (pid == 0) {
+    close(pfd[0]);
+    unsetenv("ORC_DEBUG");
+    struct rlimit rl = {20, 20};
+    setrlimit(RLIMIT_CPU, &rl);
+    fs::reset();
+    fs::enable(true);
+    fs::set_dir("/tmp", fs::P_OK);
+    unsetenv("XDG_RUNTIME_DIR"); unsetenv("HOME"); unsetenv("TMPDIR");
+    orc_init();
+    std::vector<SweepRec> recs = sweep_compile(st.sweep, true, nullptr);
+    size_t off = 0, len = recs.size() * sizeof(SweepRec);
+    const char *raw = (const char *)recs.data();
+    while (off < len) { ssize_t k = write(pfd[1], raw + off, len - off); if (k <= 0) break; off += k; }
+    _exit(0);
+  }
+  close(pfd[1]);
+  std::string buf;
+  char tmp[4096];
+  ssize_t n;
+  g_waiting_for_grandchild++;
+  while ((n = read(pfd[0], tmp, sizeof tmp)) > 0) buf.append(tmp, n);
+  close(pfd[0]);
+  int stt;
+  waitpid(pid, &stt, 0);
+  g_waiting_for_grandchild--;
+  if (WIFEXITED(stt) && WEXITSTATUS(stt) == 0 && buf.size() % sizeof(SweepRec) == 0 && !buf.empty()) {
+    st.sweep.ref.resize(buf.size() / sizeof(SweepRec));
+    memcpy(st.sweep.ref.data(), buf.data(), buf.size());
+    st.sweep.have_ref = true;
+  } else {
+    st.c->count("probe.sweep_unusable_in_zero_history_child");
+  }
+  st.c->event("sweep ref target=%s fset=%#lx items=%zu usable=%d (child %s %d)", st.sweep.target.c_str(), st.sweep.fset, st.sweep.ref.size(), st.sweep.have_ref,
+              WIFSIGNALED(stt) ? "signal" : "exit", WIFSIGNALED(stt) ? WTERMSIG(stt) : WEXITSTATUS(stt));
+}
+
+// application-side opcode sets registered as part of a history (C17): their storage must outlive the process
+static void hist_ext_emulate(OrcOpcodeExecutor *ex, int offset, int n) {
+  const orc_int16 *s = (const orc_int16 *)ex->src_ptrs[0];
+  orc_int16 *d = (orc_int16 *)ex->dest_ptrs[0];
+  (void)offset;
+  for (int i = 0; i < n; i++) d[i] = s[i];
+}
+static OrcStaticOpcode g_hist_ext[8][2];
+static char g_hist_ext_names[8][16];
+static int g_hist_ext_n = 0;
+
 static void hist_run(const std::vector<std::string> &plan, Child &c) {
   State st;
   st.c = &c;
@@ -763,9 +943,16 @@ static void hist_run(const std::vector<std::string> &plan, Child &c) {
     else if (w[0] == "dirs") dirs_w = w;
     else if (w[0] == "cfg") cfg_w = w;
     else if (w[0] == "init") init_w = w;
-    else if (w[0] == "subject") {
+    else if (w[0] == "sweep") {
+      st.sweep.on = true;
+      st.sweep.target = kv(w, "target", "sse");
+      st.sweep.fset = kvu(w, "fset", 0);
+      st.sweep.fmask = kvu(w, "fmask", 0xffffffffUL);
+      st.sweep.order = kvu(w, "order", 1);
+    } else if (w[0] == "subject") {
       SubjectRef s;
       s.spec = kv(w, "spec"); s.target = kv(w, "target", "default"); s.fmask = kvu(w, "fmask", 0xffffffffUL);
+      s.fset = kvu(w, "fset", 0);
       size_t idx = kvi(w, "s");
       if (st.subjects.size() <= idx) st.subjects.resize(idx + 1);
       st.subjects[idx] = s;
@@ -814,6 +1001,7 @@ static void hist_run(const std::vector<std::string> &plan, Child &c) {
   if (refchild)
     for (size_t i = 0; i < st.subjects.size(); i++)
       if (!st.subjects[i].spec.empty()) subject_reference(st, st.subjects[i], (int)i);
+  if (st.sweep.on) sweep_reference(st);
 
   // ---- init, possibly under faults ---------------------------------------------
   alloc::set_poison(poison, mix2(seed, 77));
@@ -881,11 +1069,15 @@ static void hist_run(const std::vector<std::string> &plan, Child &c) {
         // clause).  (Measured: compiled for avx under ORC_CODE=debug, i.e. with a frame pointer, its native code
         // corrupts the caller's frame -- a calling-convention defect, C10's subject, kept out of these workloads.)
         if (p.meta.spec == "fixed:regpressure" && tname != "null") tname = "mmx";
+        // (Measured: a 22-instruction generated program compiled for altivec reads out of bounds in
+        // powerpc_do_fixups -- unchecked backend tables, C05's subject.  Backends this machine cannot execute
+        // only get short programs, like the foreign subjects.)
+        if ((tname == "neon" || tname == "mips" || tname == "altivec" || tname == "c64x-c") && p.p->n_insns > 6) tname = "default";
         OrcTarget *t = target_by_name(tname);
         // 64-bit programs on mmx never terminate on the pinned tree: another property's defect
         if (t && !strcmp(t->name, "mmx") && p.meta.has8) { tname = "sse"; t = target_by_name(tname); }
         if (!t && tname != "null") { c.event("  skip no-target"); continue; }
-        unsigned flags = t ? (orc_target_get_default_flags(t) & (unsigned)kvu(w, "fmask", 0xffffffffUL)) : 0;
+        unsigned flags = t ? ((orc_target_get_default_flags(t) & (unsigned)kvu(w, "fmask", 0xffffffffUL)) | (unsigned)kvu(w, "fset", 0)) : 0;
         bool pending = strcmp(orc_program_get_error(p.p), "") != 0;
         auto faults = parse_faults(w);
         fs::begin_op(faults);
@@ -1127,6 +1319,51 @@ static void hist_run(const std::vector<std::string> &plan, Child &c) {
           if (l2.regions.size() > 6)
             c.violation("growth", "regions-grow-over-sequences", strf("%zu regions after enumerated sequences that never need more than 6 at once", l2.regions.size()));
         }
+      } else if (op == "regset") {
+        // the application registers an opcode set of its own (history too: built-in programs must compile as before)
+        if (g_hist_ext_n >= 8) { c.event("  skip"); continue; }
+        int k = g_hist_ext_n++;
+        snprintf(g_hist_ext_names[k], sizeof g_hist_ext_names[k], "hx%didw", k);
+        memset(&g_hist_ext[k], 0, sizeof g_hist_ext[k]);
+        OrcStaticOpcode &o = g_hist_ext[k][0];
+        snprintf(o.name, sizeof o.name, "%s", g_hist_ext_names[k]);
+        o.dest_size[0] = 2; o.src_size[0] = 2; o.emulateN = hist_ext_emulate;
+        g_hist_ext[k][1].name[0] = 0;
+        static char prefixes[8][8];
+        snprintf(prefixes[k], sizeof prefixes[k], "hx%d", k);
+        orc_opcode_register_static(g_hist_ext[k], prefixes[k]);
+        c.count("op.regset");
+      } else if (op == "sweep") {
+        if (!st.sweep.on || !st.sweep.have_ref) { c.event("  skip no-sweep-reference"); continue; }
+        // a process whose init-time probe found no executable memory emulates everything, by design: that is a
+        // different configuration from the reference process, not a different history
+        if (st.jit_forced_off) { c.count("probe.sweep_skipped_init_probe_failed"); continue; }
+        std::vector<char> refused;
+        std::vector<SweepRec> got = sweep_compile(st.sweep, false, &refused);
+        std::vector<SweepItem> items = sweep_items(st.sweep.target);
+        OrcOpcodeSet *set = orc_opcode_set_get("sys");
+        st.sweep.passes++;
+        c.count("sweep.passes");
+        Fnv h;
+        for (size_t i = 0; i < got.size() && i < st.sweep.ref.size(); i++) {
+          const SweepRec &a = got[i], &b = st.sweep.ref[i];
+          h.add(&a, sizeof a);
+          c.count("sweep.compiles");
+          if (refused[i] && !ORC_COMPILE_RESULT_IS_SUCCESSFUL(a.res)) { c.count("probe.subject_compile_itself_refused_code_memory"); continue; }
+          if (ORC_COMPILE_RESULT_IS_SUCCESSFUL(a.res)) c.count("sweep.compiled_to_code");
+          std::string what;
+          if (a.res != b.res) what = strf("compile result %#x vs %#x", a.res, b.res);
+          else if (a.size != b.size) what = strf("code size %d vs %d", a.size, b.size);
+          else if (a.ch != b.ch) what = "machine code bytes differ";
+          else if (a.ah != b.ah) what = "listing differs";
+          if (!what.empty() && st.O("det")) {
+            const OrcStaticOpcode *so = set->opcodes + items[i].opcode;
+            c.violation("determinism", a.ch != b.ch || a.size != b.size ? "code-differs" : a.ah != b.ah ? "listing-differs" : "result-differs",
+                        strf("opcode sweep, pass %d: the one-instruction program for %s (operand form %d) compiled for %s with flags (default & %#lx) | %#lx at history point %zu: %s from what a fresh process produced that compiled the same programs in the opposite order",
+                             st.sweep.passes, so->name, items[i].variant, st.sweep.target.c_str(), st.sweep.fmask, st.sweep.fset, oi, what.c_str()));
+          }
+        }
+        c.event("  sweep pass %d items=%zu hash=%016llx", st.sweep.passes, got.size(), (unsigned long long)h.h);
       } else if (op == "subject") {
         size_t si = kvi(w, "s");
         if (si >= st.subjects.size() || !st.subjects[si].usable) { c.event("  skip unusable subject"); continue; }
@@ -1134,7 +1371,7 @@ static void hist_run(const std::vector<std::string> &plan, Child &c) {
         ProgMeta meta;
         OrcProgram *p = build_program(s.spec, strf("subj%zu", si), &meta);
         OrcTarget *t = target_by_name(s.target);
-        unsigned flags = t ? (orc_target_get_default_flags(t) & s.fmask) : 0;
+        unsigned flags = t ? ((orc_target_get_default_flags(t) & s.fmask) | s.fset) : 0;
         fs::begin_op({});
         int res = orc_program_compile_full(p, t, flags);
         fs::OpStats sos = fs::end_op();
@@ -1153,7 +1390,7 @@ static void hist_run(const std::vector<std::string> &plan, Child &c) {
         s.compiles++;
         c.count("subject.compiles");
         c.state(mix2(mix2(si, r), off));
-        if (st.O("det") && own_codemem_failure && !ORC_COMPILE_RESULT_IS_SUCCESSFUL(res)) {
+        if (st.O("det") && (own_codemem_failure || st.jit_forced_off) && !ORC_COMPILE_RESULT_IS_SUCCESSFUL(res)) {
           c.count("probe.subject_compile_itself_refused_code_memory");
         } else if (st.O("det")) {
           std::string what;
